@@ -33,6 +33,7 @@ type caseResult struct {
 	NPack int       `json:"npack,omitempty"`
 	Drops int       `json:"drops,omitempty"`
 	Incon bool      `json:"inconclusive,omitempty"` // a time bound could not be judged: the machine was starved
+	Skip  string    `json:"skipped,omitempty"`      // not run: a hang of this scenario flavour has already been established
 }
 
 type indexedCase struct {
@@ -53,6 +54,9 @@ func runCase(c *Case) *caseResult {
 		return &caseResult{Line: r.modelLine, Packs: r.packs, Finds: r.finds, NPack: r.nPack, Incon: r.inconclusive}
 	case "free":
 		f := runFree(c, e)
+		if f.skipped != "" {
+			return &caseResult{Skip: f.skipped}
+		}
 		return &caseResult{Line: f.modelLine, Packs: f.packs, Finds: f.finds, NPack: f.nPack, Drops: f.drops}
 	case "stopstorm":
 		f := runStopStorm(c, e)
@@ -118,7 +122,7 @@ type workerOutcome struct {
 }
 
 // spawnWorker runs the cases `idxs` of `jobs` in one worker process.
-func spawnWorker(self, dir string, tag string, jobs []*job, idxs []int, par int, deadline time.Duration) *workerOutcome {
+func spawnWorker(self, dir string, tag string, jobs []*job, idxs []int, par int, deadline, stall time.Duration) *workerOutcome {
 	wo := &workerOutcome{finished: map[int]*caseResult{}}
 	var ics []indexedCase
 	for _, i := range idxs {
@@ -141,13 +145,26 @@ func spawnWorker(self, dir string, tag string, jobs []*job, idxs []int, par int,
 	}
 	doneCh := make(chan error, 1)
 	go func() { doneCh <- cmd.Wait() }()
-	select {
-	case err := <-doneCh:
-		wo.crashed = err != nil
-	case <-time.After(deadline):
-		cmd.Process.Kill()
-		<-doneCh
-		wo.hung = true
+	// the worker streams a line per case started / finished: no new line for `stall` means that every
+	// case in flight is stuck (a hang is suspected); `deadline` bounds the whole chunk
+	start, lastSize, lastAt := time.Now(), int64(-1), time.Now()
+wait:
+	for {
+		select {
+		case err := <-doneCh:
+			wo.crashed = err != nil
+			break wait
+		case <-time.After(300 * time.Millisecond):
+			if fi, err := os.Stat(out); err == nil && fi.Size() != lastSize {
+				lastSize, lastAt = fi.Size(), time.Now()
+			}
+			if time.Since(lastAt) > stall || time.Since(start) > deadline {
+				cmd.Process.Kill()
+				<-doneCh
+				wo.hung = true
+				break wait
+			}
+		}
 	}
 	wo.stderr = errb.String()
 	started := map[int]bool{}
@@ -200,20 +217,23 @@ func runInWorkers(env *vh.Env, rep *vh.Report, jobs []*job) {
 		return
 	}
 	const nProc, par = 4, 2
-	// deadlines only bound hangs: they are generous, and an expired one never is a verdict by itself —
-	// the cases concerned are re-run alone, patiently, and alone once more with twice the time
-	perCase := 4 * time.Minute
-	chunkDeadline := 8 * time.Minute
+	// Deadlines only bound hangs.  A worker is stopped when it has made no progress at all for `stall`
+	// (or the chunk exceeds `chunkDeadline`); that alone is never a verdict: the cases in flight are re-run
+	// ALONE with the patient deadline `perCase`.  The first case that hangs alone establishes the hang
+	// (`<kind>:hang`, with the case as replay): the scenario kind is then dead — its remaining cases are
+	// skipped, the other kinds still run — so a deadlock is paid for once, not per chunk.
+	stall, perCase, chunkDeadline := 150*time.Second, 4*time.Minute, 8*time.Minute
 	if env.Thorough {
-		chunkDeadline = 40 * time.Minute
-		perCase = 10 * time.Minute
+		stall, perCase, chunkDeadline = 10*time.Minute, 12*time.Minute, 40*time.Minute
 	}
 	pending := make([]int, len(jobs))
 	for i := range jobs {
 		pending[i] = i
 	}
-	suspects := map[int]string{}   // in flight when a worker died or was stopped: idx -> crash report
-	deadlineOnly := map[int]bool{} // … the worker was stopped at its deadline (no crash): maybe just a slow machine
+	dead := map[string]bool{}
+	var together []interface{}
+	crashReport := ""
+	nSolo := 0
 	for round := 0; round < 4 && len(pending) > 0; round++ {
 		chunks := make([][]int, nProc)
 		for k, i := range pending {
@@ -228,11 +248,17 @@ func runInWorkers(env *vh.Env, rep *vh.Report, jobs []*job) {
 			wg.Add(1)
 			go func(p int) {
 				defer wg.Done()
-				outs[p] = spawnWorker(self, dir, fmt.Sprintf("r%dp%d", round, p), jobs, chunks[p], par, chunkDeadline)
+				outs[p] = spawnWorker(self, dir, fmt.Sprintf("r%dp%d", round, p), jobs, chunks[p], par, chunkDeadline, stall)
 			}(p)
 		}
 		wg.Wait()
 		pending = nil
+		type suspect struct {
+			idx          int
+			why          string
+			deadlineOnly bool
+		}
+		var suspects []suspect
 		for p := 0; p < nProc; p++ {
 			wo := outs[p]
 			if wo == nil {
@@ -244,71 +270,75 @@ func runInWorkers(env *vh.Env, rep *vh.Report, jobs []*job) {
 			if wo.crashed || wo.hung {
 				what := "died"
 				if wo.hung {
-					what = fmt.Sprintf("did not finish within %v and was killed", chunkDeadline)
+					what = fmt.Sprintf("made no progress for %v (or exceeded %v) and was stopped", stall, chunkDeadline)
 				}
 				rep.Note("worker %d of round %d %s with %d case(s) in flight, %d not started", p, round, what, len(wo.inFlight), len(wo.notRun))
 				for _, i := range wo.inFlight {
-					suspects[i] = what + "\n" + panicHead(wo.stderr)
-					if wo.hung {
-						deadlineOnly[i] = true
-					}
+					suspects = append(suspects, suspect{i, what + "\n" + panicHead(wo.stderr), wo.hung})
 				}
 				if len(wo.inFlight) == 0 && len(wo.notRun) > 0 && wo.crashed {
 					// died outside any case (e.g. while decoding its input): do not loop for ever
-					suspects[wo.notRun[0]] = what + "\n" + panicHead(wo.stderr)
+					suspects = append(suspects, suspect{wo.notRun[0], what + "\n" + panicHead(wo.stderr), false})
 					wo.notRun = wo.notRun[1:]
 				}
 			}
 			pending = append(pending, wo.notRun...)
 		}
-	}
-	for _, i := range pending {
-		suspects[i] = "never started: the workers kept dying"
-	}
-	if len(suspects) == 0 {
-		return
-	}
-	// every suspect alone, sequentially: does it crash / hang by itself?
-	var together []interface{}
-	report := ""
-	nAlone := 0
-	for i, why := range suspects {
-		if nAlone >= 12 { // bounded: the verdict is clear by then
-			break
-		}
-		nAlone++
-		wo := spawnWorker(self, dir, fmt.Sprintf("solo%d", i), jobs, []int{i}, 1, perCase)
-		if wo.hung {
-			wo = spawnWorker(self, dir, fmt.Sprintf("solo%db", i), jobs, []int{i}, 1, 2*perCase)
-		}
-		c := jobs[i].c
-		if r := wo.finished[i]; r != nil {
-			jobs[i].res = r
-			if deadlineOnly[i] {
-				// the chunk ran out of time and the case is fine by itself: a loaded machine, not a finding
-				rep.Note("case %d (%s) was in flight when a worker reached its deadline; re-run alone it finished normally", i, c.Kind)
+		// every suspect alone, patiently — until its kind is dead
+		for _, sp := range suspects {
+			c := jobs[sp.idx].c
+			if dead[c.Kind] || nSolo >= 12 {
 				continue
 			}
-			together = append(together, c)
-			report = why
-			continue
+			nSolo++
+			wo := spawnWorker(self, dir, fmt.Sprintf("solo%d", sp.idx), jobs, []int{sp.idx}, 1, perCase, perCase)
+			if r := wo.finished[sp.idx]; r != nil {
+				jobs[sp.idx].res = r
+				if sp.deadlineOnly {
+					rep.Note("case %d (%s) was in flight when a worker was stopped for lack of progress; re-run alone it finished normally", sp.idx, c.Kind)
+				} else {
+					together = append(together, c)
+					crashReport = sp.why
+				}
+				continue
+			}
+			replay := map[string]interface{}{"case": c, "crash_report": panicHead(wo.stderr)}
+			if wo.hung {
+				dead[c.Kind] = true
+				rep.Fail("property", c.Kind+":hang", fmt.Sprintf("this scenario, run alone in a fresh process, does not finish within %v: the sender (or a call into it) hangs; the remaining %q scenarios of this run are skipped", perCase, c.Kind), replay)
+			} else {
+				rep.Fail("property", c.Kind+":process-crash", "this scenario, run alone in a fresh process, crashes the process (a panic outside the caller's reach, e.g. in the sender's background goroutine): "+
+					vh.Clip(firstLine(panicHead(wo.stderr)), 300), replay)
+			}
 		}
-		replay := map[string]interface{}{"case": c, "crash_report": panicHead(wo.stderr)}
-		if wo.hung {
-			rep.Fail("property", c.Kind+":hang", fmt.Sprintf("this scenario, run alone in a fresh process, does not finish within %v (second attempt, after %v): the sender (or a call into it) hangs", 2*perCase, perCase), replay)
-		} else {
-			rep.Fail("property", c.Kind+":process-crash", "this scenario, run alone in a fresh process, crashes the process (a panic outside the caller's reach, e.g. in the sender's background goroutine): "+
-				vh.Clip(firstLine(panicHead(wo.stderr)), 300), replay)
+		if len(dead) > 0 {
+			var keep []int
+			skipped := 0
+			for _, i := range pending {
+				if dead[jobs[i].c.Kind] {
+					skipped++
+				} else {
+					keep = append(keep, i)
+				}
+			}
+			pending = keep
+			if skipped > 0 {
+				rep.Note("%d scenario(s) of a kind with an established hang skipped", skipped)
+				rep.CountN("skipped:kind-with-established-hang", skipped)
+			}
 		}
+	}
+	if len(pending) > 0 {
+		rep.Note("%d case(s) never ran: the workers kept dying", len(pending))
 	}
 	if len(together) > 0 {
 		if len(together) > 6 {
 			together = together[:6]
 		}
 		rep.Fail("property", "concurrent-senders:process-crash",
-			"a worker process running several senders at the same time "+firstLine(report)+"; each of the scenarios that were in flight passes when run alone in a fresh process: state shared between senders (or between a sender's callers) is corrupted by concurrent use — "+
-				vh.Clip(firstLine(strings.SplitN(report+"\n", "\n", 2)[1]), 300),
-			map[string]interface{}{"case": &Case{Kind: "concurrent"}, "cases_in_flight": together, "crash_report": report})
+			"a worker process running several senders at the same time "+firstLine(crashReport)+"; each of the scenarios that were in flight passes when run alone in a fresh process: state shared between senders (or between a sender's callers) is corrupted by concurrent use — "+
+				vh.Clip(firstLine(strings.SplitN(crashReport+"\n", "\n", 2)[1]), 300),
+			map[string]interface{}{"case": &Case{Kind: "concurrent"}, "cases_in_flight": together, "crash_report": crashReport})
 	}
 }
 
